@@ -106,7 +106,7 @@ func c07Calls(r *rand.Rand, st *stack, nic mon.NIC, e gen.Env, n int) []txCall {
 	any4 := func() netip.Addr { a, _ := e.IP4(r); return a }
 	any6 := func() netip.Addr { a, _ := e.IP6(r); return a }
 	for i := 0; i < n; i++ {
-		switch k := r.Intn(25); k {
+		switch k := r.Intn(26); k {
 		case 0:
 			ip := any4()
 			calls = append(calls, txCall{api: "arp.Request", args: ip.String(), call: func() error { return st.arp.Request(ip) },
@@ -322,7 +322,11 @@ func c07Calls(r *rand.Rand, st *stack, nic mon.NIC, e gen.Env, n int) []txCall {
 			}
 			var pfx []packet.PrefixInformation
 			var want []netip.Addr
-			for j := 1 + r.Intn(3); j > 0; j-- {
+			np := 1 + r.Intn(3)
+			if r.Intn(4) == 0 {
+				np = 4 + r.Intn(9) // advertisements of 256 bytes and more
+			}
+			for j := np; j > 0; j-- {
 				a := netip.AddrFrom16([16]byte{0x20, 0x01, 0x0d, 0xb8, byte(r.Intn(256)), byte(r.Intn(256))})
 				pfx = append(pfx, packet.PrefixInformation{Prefix: net.IP(a.AsSlice()), PrefixLength: 64})
 				want = append(want, a)
@@ -598,6 +602,47 @@ func c07Calls(r *rand.Rand, st *stack, nic mon.NIC, e gen.Env, n int) []txCall {
 						}
 					}
 					return ""
+				}})
+		case 25:
+			// the ARP handler's own reply: a client that holds our DHCP offer probes (RFC 5227, sender 0.0.0.0) for an address
+			// other than the offered one; the handler rejects the probe by claiming the probed address, unicast to the prober
+			var cm refdec.MAC // a station of its own for every call: an offer stays on record
+			r.Read(cm[:])
+			cm[0] = cm[0]&^1 | 2
+			offer, probed := lanIP(), lanIP()
+			mode := r.Intn(4) // 0: probe for another LAN address; 1: for the offered address; 2: no offer on record; 3: address outside the LAN
+			switch mode {
+			case 1:
+				probed = offer
+			case 3:
+				probed = netip.AddrFrom4([4]byte{172, 31, byte(r.Intn(256)), byte(1 + r.Intn(250))})
+			}
+			if probed == nic.HostIP || probed == nic.RouterIP || offer == nic.HostIP || offer == nic.RouterIP || (mode == 0 && probed == offer) {
+				continue
+			}
+			calls = append(calls, txCall{api: "arp.ProcessPacket(probe)", args: fmt.Sprintf("client=%x offer=%v probes=%v mode=%d", cm[:], offer, probed, mode),
+				call: func() error {
+					if mode != 2 {
+						s.SetDHCPv4IPOffer(hw(cm), offer, packet.NameEntry{})
+					}
+					b := refdec.Ether(bcastMAC, cm, 0x0806, 0, refdec.ARP(refdec.ARPPkt{HType: 1, PType: 0x0800, HLen: 6, PLen: 4, Op: 1, SHA: cm, SPA: ip4zero, THA: zeroMAC, TPA: probed}))
+					frame, err := s.Parse(b)
+					if err != nil || frame.PayloadID != packet.PayloadARP {
+						panic(fmt.Sprintf("HARNESS BUG: the probe is not parsed as ARP: %v %v", err, frame.PayloadID))
+					}
+					return st.arp.ProcessPacket(frame)
+				},
+				verify: func(err error, fr []mon.TxFrame, in []mon.TxInfo) string {
+					if mode != 0 {
+						if len(fr) != 0 {
+							return fmt.Sprintf("unsolicited: %d frames sent for a probe that calls for none", len(fr))
+						}
+						return ""
+					}
+					if x := one(fr); x != "" {
+						return x
+					}
+					return wantARP(in[0], cm, 2, host, probed, cm, netip.AddrFrom4([4]byte{255, 255, 255, 255}))
 				}})
 		case 23:
 			if !nic.HostLLA.IsValid() {
